@@ -129,6 +129,8 @@ namespace oratio_verif
         fprintf(stderr, "TRC VAR x%zu val=%s lb=%s ub=%s\n", v, to_string(s.get_lra_theory().value(v)).c_str(), to_string(s.get_lra_theory().lb(v)).c_str(), to_string(s.get_lra_theory().ub(v)).c_str());
     }
 
+    static std::string slit(const smt::lit &l) { return (sign(l) ? "+" : "-") + std::to_string(variable(l)); }
+
     static std::string graph(solver &s)
     {
       auto val = [&s](const smt::lit &l)
@@ -173,7 +175,7 @@ namespace oratio_verif
         if (!first)
           o << ", ";
         first = false;
-        o << "{\"id\": " << f->get_id() << ", \"data\": " << f->get_data() << ", \"phi\": \"" << val(f->get_phi()) << "\", \"expanded\": " << (f->is_expanded() ? "true" : "false") << ", \"causes\": [";
+        o << "{\"id\": " << f->get_id() << ", \"data\": " << f->get_data() << ", \"phi\": \"" << val(f->get_phi()) << "\", \"phi_lit\": \"" << slit(f->get_phi()) << "\", \"exclusive\": " << (f->exclusive ? "true" : "false") << ", \"expanded\": " << (f->is_expanded() ? "true" : "false") << ", \"causes\": [";
         bool fc = true;
         for (const auto &r : f->get_causes())
         {
@@ -184,7 +186,7 @@ namespace oratio_verif
         bool fr = true;
         for (const auto &r : f->get_resolvers())
         {
-          o << (fr ? "" : ", ") << "{\"id\": " << r->get_id() << ", \"data\": " << r->get_data() << ", \"rho\": \"" << val(r->get_rho()) << "\", \"preconditions\": [";
+          o << (fr ? "" : ", ") << "{\"id\": " << r->get_id() << ", \"data\": " << r->get_data() << ", \"rho\": \"" << val(r->get_rho()) << "\", \"rho_lit\": \"" << slit(r->get_rho()) << "\", \"preconditions\": [";
           fr = false;
           bool fp = true;
           for (const auto &p : r->get_preconditions())
@@ -240,6 +242,15 @@ static void trc(const char *k, const std::vector<smt::lit> &lits)
   (void)r;
 }
 static void on_new(void *, const std::vector<smt::lit> &lits) { trc("N", lits); }
+// VERIF_CLAUSES: every clause given to sat_core::new_clause during read() + solve(), for the clause-level part of C03
+static std::string *g_posted = nullptr;
+static void on_new_collect(void *, const std::vector<smt::lit> &lits)
+{
+  *g_posted += "[";
+  for (size_t i = 0; i < lits.size(); ++i)
+    *g_posted += (i ? " " : "") + oratio_verif::access::slit(lits[i]);
+  *g_posted += "]";
+}
 static void on_rec(void *, const std::vector<smt::lit> &lits) { trc("R", lits); }
 
 int main(int argc, char *argv[])
@@ -270,6 +281,12 @@ int main(int argc, char *argv[])
         s->get_sat_core().verif_new_clause = on_new;
         s->get_sat_core().verif_record = on_rec;
       }
+      std::string posted;
+      if (getenv("VERIF_CLAUSES"))
+      {
+        g_posted = &posted;
+        s->get_sat_core().verif_new_clause = on_new_collect;
+      }
       try
       {
         s->read(unhex(h));
@@ -288,6 +305,8 @@ int main(int argc, char *argv[])
             if (c == '\n' || c == '\r')
               c = ' ';
           res = "T " + js + " \tTL " + tl + " \tJG " + oratio_verif::access::graph(*s) + " \tST " + oratio_verif::access::strings(*s) + " \tTI " + oratio_verif::access::registry(*s);
+          if (getenv("VERIF_CLAUSES"))
+            res += " \tCL " + posted;
         }
         else
         {
